@@ -425,6 +425,11 @@ def k3(run, sm, frag, fspan):
                                 if cap is not None:
                                     c = strip(cap)
                                     return c[0] == "param" and "Settings" in prog.bodies[path]["locals"][c[1]]["ty"]
+                            # a captured copy of settings.scale (`let scale = settings.scale; .. |f| f.scale(scale)`)
+                            if s[0] == "param" and s[1] == 1 and s[2] and all(f.isdigit() for f in s[2]):
+                                cap = caps.get(s[2][0])
+                                if cap is not None and is_settings_scale_expr(prog, path, cap):
+                                    return True
                         return False
                     return bool(rets) and all(cap_scaled(r) for r in rets)
             return False
@@ -531,18 +536,48 @@ def k456(run, sm):
             run.ok("C11.K5", inst, where(st), "factor of the canvas size product")
             continue
         if rv.get("k") == "use":
-            # temp: all uses must be scale-call args or Mul operands of a size function
-            tl = st["dst"]["l"]
-            bad_use = None
-            for bid2, st2, op2 in prog.all_operands(p):
-                pl2 = op_place(op2)
-                if pl2 is None or pl2["l"] != tl or st2 is st:
-                    continue
-                if st2.get("k") == "call" and Program.callee_name(st2) in scale_fns:
-                    continue
-                if st2.get("rv", {}).get("k") == "bin" and st2["rv"]["op"] == "Mul" and p.endswith("::get_size"):
-                    continue
-                bad_use = st2
+            # a local copy (`let scale = settings.scale`): followed through further copies, references and closure
+            # captures; every final use must be an argument of a scale method or a factor of the size product
+            def flows(path, local, seen, is_capture=None):
+                """first offending statement, or None"""
+                key = (path, local, is_capture)
+                if key in seen:
+                    return None
+                seen.add(key)
+                for bid2, st2, op2 in prog.all_operands(path):
+                    pl2 = op_place(op2)
+                    if pl2 is None or pl2["l"] != local or st2 is st:
+                        continue
+                    if is_capture is not None:
+                        idx = [pr.get("f") if isinstance(pr, dict) else None for pr in pl2["p"]]
+                        names = [pr.get("name") if isinstance(pr, dict) else None for pr in pl2["p"]]
+                        if is_capture not in idx and str(is_capture) not in [str(x) for x in idx] and str(is_capture) not in [str(n) for n in names]:
+                            continue
+                    elif pl2["p"] and not all(pr == "*" for pr in pl2["p"]):
+                        continue
+                    if st2.get("k") == "call" and Program.callee_name(st2) in scale_fns:
+                        continue
+                    rv2 = st2.get("rv", {})
+                    if rv2.get("k") == "bin" and rv2["op"] == "Mul" and path.endswith("::get_size"):
+                        continue
+                    if rv2.get("k") in ("use", "ref", "copy", "move") and st2.get("dst") and not st2["dst"]["p"]:
+                        r = flows(path, st2["dst"]["l"], seen)
+                        if r is not None:
+                            return r
+                        continue
+                    if rv2.get("k") == "agg" and rv2.get("closure"):
+                        i = [j for j, o in enumerate(rv2["ops"]) if o is op2]
+                        q = rv2["closure"]
+                        if q in prog.bodies and i:
+                            r = flows(q, 1, seen, is_capture=i[0])
+                            if r is not None:
+                                return r
+                            continue
+                    if st2.get("k") == "drop":
+                        continue
+                    return st2
+                return None
+            bad_use = flows(p, st["dst"]["l"], set())
             if bad_use is None:
                 run.ok("C11.K5", inst, where(st), "flows only into scale()/size product")
             else:
